@@ -5,9 +5,11 @@
 //!   vcheck <ID> --worker k --nworkers n ...     (internal)
 //!   vcheck <ID> --run-wal <hex>                 (internal) re-run one write-ahead case
 
+mod ckh;
 mod fw;
 mod props;
 
+mod refcheck;
 mod refvm;
 mod sched;
 mod util;
